@@ -458,6 +458,10 @@ theorem Sat.updateLocalHeader {β} {s : WState} {file : FileData} {k : Unit → 
     (hbig : file.largeFile = false → file.compressedSize > ZIP64_BYTES_THR → ∀ d', Q (.error (.io .other), s) d') :
     Sat (Model.updateLocalHeader s file k) fa d Q := by
   unfold Model.updateLocalHeader
+  split
+  · next hg =>
+    simp only [Bool.and_eq_true, Bool.not_eq_true', decide_eq_true_eq] at hg
+    exact Sat.pure (hbig hg.1 hg.2 d)
   apply Sat.io_seekStart _ he
   intro d1 _
   apply Sat.io_writeAll _ he
@@ -470,14 +474,11 @@ theorem Sat.updateLocalHeader {β} {s : WState} {file : FileData} {k : Unit → 
     apply Sat.io_writeAll _ he
     intro d5 _
     exact hk d5
-  · next hl =>
-    split
-    · next hb => exact Sat.pure (hbig (by simpa using hl) hb d2)
-    · apply Sat.io_writeAll _ he
-      intro d3 _
-      apply Sat.io_writeAll _ he
-      intro d4 _
-      exact hk d4
+  · apply Sat.io_writeAll _ he
+    intro d3 _
+    apply Sat.io_writeAll _ he
+    intro d4 _
+    exact hk d4
 
 /-- The tail of `finish_file` after the writer is a plain storer (copy of the local function in
 `finishFile`; `finishFile_afterEnc` below checks by `rfl`-style `change` that it is the same term). -/
